@@ -102,6 +102,11 @@ claim("C16", "deterministic simulation of one negotiation per configuration; the
       "trusted: the negotiation model (30 lines, written from the statement); thorough = exhaustive over the stated product, quick = sample",
       "DESIGN.md section 5 C16")
 
+claim("C18", SIM + "; oracle: executable lifecycle model per party (state, queue, last message, error-reported flag) + transmission accounting on the decrypted wire",
+      "PRNG-generated lifecycle histories on both sides (start/complete/abandon AKE, Send in every state, End, peer End, genuine and injected error messages, refresh, crash/restart, loss, ticks) under PRNG-chosen policy sets. After every call: the security events must be exactly those of the observed IsEncrypted/SSID transition; entering the encrypted state only by the final AKE message, leaving it only by End() or the peer's disconnect; Send's outcome class must be the model's (clear / queued+query / data / refused); every text is transmitted at most once, queued texts exactly once, in order, in the call that starts the session, and a second transmission is allowed only for the most recent message after an error report, once, marked as resent.",
+      "trusted: lifecycle model written from the statement; shadow reference for decrypting emitted data messages (undecodable ones are counted and their history exempted)",
+      "DESIGN.md section 5 C18")
+
 _todo = "check not built yet in this session (see DESIGN.md section 12 build order)"
 for pid in [ "C11", "C12", "C13", "C14", "C15", "C16", "C18", "C19", "C20"]:
     NA[pid] = _todo
